@@ -43,7 +43,8 @@ DRIVER_TARGETS = ['CopVerif.Driver.VineFlow']
 ALWAYS_SEARCH = True
 RULE = ('tables of 3-6 columns (search: 2-6) x 60-150 rows in the modes gauss (random correlation via Cholesky) / '
         'negmix (sign-flipped columns) / clayton (lower-tail chain) / gumbel (upper-tail chain) / indep / discrete '
-        '(rounded: ties); each fitted as center, direct and regular vine with truncation t in 1..d; per fitted vine '
+        '(rounded: ties) / outlier (a nearly functional pair with 2-4% unrelated rows: h saturates, the 0/1 correction '
+        'fires; the first two tables of every run); each fitted as center, direct and regular vine with truncation t in 1..d; per fitted vine '
         'one u in (0.02,0.98)^d, two np.empty sentinels, 2 seeded rows of _sample_row and one sample(3).  A case '
         'is distinct by (type, d, t, extracted structure, families) and non-trivial when d >= 3 and the fit '
         'returned; fits that raise are counted as refused.')
@@ -68,8 +69,9 @@ ASSUMPTIONS = ['the vine structure is data: extracted from the fitted object (C1
 
 FIT_TIMEOUT_S = 40
 TYPES = ('center', 'direct', 'regular')
-MODES = ('gauss', 'negmix', 'clayton', 'gumbel', 'indep', 'discrete')
-MODE_W = (5, 3, 3, 3, 1, 2)
+MODES = ('gauss', 'negmix', 'clayton', 'gumbel', 'indep', 'discrete', 'outlier')
+MODE_W = (5, 3, 3, 3, 1, 2, 3)
+CLS_URANGE = 'Tree.prepare_next_tree:U-outside-(0,1)'
 SENTINELS = (0.3125, 0.71875)
 CLS_UNWRITTEN = 'VineCopula.get_likelihood:reads-unwritten-cells'
 CLS_WRONGCELL = 'VineCopula.get_likelihood:reads-wrong-cell'
@@ -102,6 +104,13 @@ def gen_table(rng, d, mode, n=None):
             U = 1 - U
         from scipy.stats import norm
         Z = norm.ppf(np.clip(U, 1e-6, 1 - 1e-6))[:, rs.permutation(d)]
+    elif mode == 'outlier':
+        # one nearly functional pair (either sign) with 2-4% unrelated rows: large theta, points far from the
+        # diagonal => h saturates to exactly 0 / 1 (the 0/1 correction fires)
+        i, j = rng.sample(range(d), 2)
+        Z[:, j] = rs.choice([-1.0, 1.0]) * Z[:, i] + rng.choice([0.005, 0.01, 0.02, 0.04]) * rs.randn(n)
+        k = max(2, int(rng.uniform(0.02, 0.04) * n))
+        Z[:k, j] = rs.randn(k)
     elif mode == 'discrete':
         Z = np.round(Z * rng.choice([2.0, 4.0])) + 1e-3 * rs.randn(n, d) * (rng.random() < 0.5)
     return pd.DataFrame(Z, columns=[f'c{i}' for i in range(d)])
@@ -501,7 +510,7 @@ def oracle_lik(vine, u):
 
 # ----------------------------------------------------------------------------- the tie
 OBS = ['corr:select_copula inputs = plan inputs', 'corr:edge.name/theta = select_copula(plan inputs)',
-       'corr:edge.U = fix01(H(plan inputs))', 'corr:U strictly inside (0,1)',
+       'corr:edge.U = fix01(H(plan inputs))', 'corr:H in [0,1] => U strictly inside (0,1)',
        'corr:get_conditional_uni rows = plan', 'corr:flowOK => plan = needed slots',
        'corr:get_likelihood = sum log pdf along plan reads', 'corr:all reads written => deterministic',
        'corr:goodVine => get_likelihood = specification sum', 'corr:_sample_row = sampling plan',
@@ -527,6 +536,8 @@ def run(ctx, lean):
     for it in range(n_tables):
         d = rng.choice([3, 4, 4, 4, 5, 5, 6])
         mode = rng.choices(MODES, MODE_W)[0]
+        if it < 2:
+            d, mode = rng.choice([3, 4]), 'outlier'
         X = gen_table(rng, d, mode)
         for vt in TYPES:
             t = rng.choice([1, 2, d - 1, d - 1, d, rng.randint(1, d)])
@@ -597,11 +608,16 @@ def tie_one(ctx, lean, X, vt, t, v, log, eps_hex, note, rng):
         if int(np.sum((hl == 0) | (hl == 1) | (hr == 0) | (hr == 1))):
             ctx.count('fix01 fired')
         U = np.asarray(e.U, dtype=float)
+        h_in = bool(np.all((hl >= 0) & (hl <= 1) & (hr >= 0) & (hr <= 1)))
         if not bool(np.all((U > 0) & (U < 1))):
             bi = np.argwhere(~((U > 0) & (U < 1)))[0]
-            note('corr:U strictly inside (0,1)', dict(where, tree=k, edge=i, value=repr(U[tuple(bi)])))
-            ctx.fail_input('VineCopula.fit', table_input(X, vt, t), {'tree': k + 1, 'edge': i, 'U': repr(U[tuple(bi)])},
-                           'pseudo-observations strictly inside (0,1)', 'Tree.prepare_next_tree:U-outside-(0,1)')
+            if h_in:       # instance of fix01_range
+                note('corr:H in [0,1] => U strictly inside (0,1)', dict(where, tree=k, edge=i, value=repr(U[tuple(bi)])))
+            ctx.count('pseudo-observation outside (0,1): partial_derivative left [0,1]')
+            ctx.fail_input('VineCopula.fit', table_input(X, vt, t),
+                           {'tree': k + 1, 'edge': i, 'family': str(e.name), 'theta': float(np.ravel(e.theta)[0]),
+                            'U': repr(float(U[tuple(bi)]))},
+                           'pseudo-observations strictly inside (0,1)', CLS_URANGE)
         # which rows does the real code take / which are needed
         fl, nl, nr = need[k][i]
         ctx.count(f'flowOK={fl}' if k > 0 else 'first-tree edge')
@@ -772,7 +788,7 @@ def check_real(ctx, X, vt, t, counts, rng, deep):
                 counts['failures'] += 1
                 ctx.fail_input('VineCopula.fit', inp, {'tree': k + 1, 'edge': i, 'min': float(np.nanmin(U)),
                                                        'max': float(np.nanmax(U)), 'nan': bool(np.isnan(U).any())},
-                               'pseudo-observations strictly inside (0,1)', 'Tree.prepare_next_tree:U-outside-(0,1)')
+                               'pseudo-observations strictly inside (0,1)', CLS_URANGE)
     wrong = oracle_inputs(v) if d >= 3 else []
     if wrong:
         counts['failures'] += 1
